@@ -94,3 +94,16 @@ func register(id string, f CheckFunc) { Registry[id] = f }
 // Thorough holds the extra work of the thorough tier per property (variant loads, mutant
 // self-test); it runs after the quick rules in the same Run.
 var Thorough = map[string]CheckFunc{}
+
+var fileCache = map[string][]byte{}
+
+func readFileCached(path string) ([]byte, error) {
+	if b, ok := fileCache[path]; ok {
+		return b, nil
+	}
+	b, err := os.ReadFile(path)
+	if err == nil {
+		fileCache[path] = b
+	}
+	return b, err
+}
